@@ -58,8 +58,7 @@ def kinds_of(struct):
     conds, acts, mt = struct
     out = set()
     for c in conds:
-        head = c[0]
-        out.add("c:" + (head if isinstance(head, str) and head in ("exists", "notexists", "size", "envelope", "address", "body", "currentdate", "true", "false") else "header"))
+        out.add("c:" + E.cond_kind(c) + ("!" if c[0] in E.PREFIX_NEGATED else ""))
     for a in acts:
         out.add("a:" + a[0] + ("+" + "+".join(x for x in a[1:] if isinstance(x, str) and x.startswith(":")) if any(isinstance(x, str) and x.startswith(":") for x in a[1:]) else ""))
     return out
